@@ -6,7 +6,7 @@
 (* (known findings are told from new violations by Classify).                *)
 (* Numbers arrive in natural units: <<q, r>> = round(value/unit) and the      *)
 (* residual in 1e-6 units (encoding Q), or as fixed-point observations (F).   *)
-EXTENDS Coordinates, TraceLib
+EXTENDS Coordinates, TraceLib, SequencesExt
 VARIABLES l, c, bad
 
 (* ------------------------------ tolerances ------------------------------ *)
@@ -57,46 +57,54 @@ RowOk(r) == /\ r.seg \in Segs(c) /\ r.ax >= 0 /\ r.ax < NumAx(c, r.seg) /\ r.vie
             /\ r.t0 = c.minTang
 
 (* ------------------------------- Row ------------------------------------ *)
+\* (row constants are bound by quantifying over a singleton so that TLC evaluates them once per line)
+AllSmall(sq) == \A i \in 1..Len(sq) : Small(sq[i])
 \* the line STIR reports for the bin: the nominal line, or its exchanged representation (phi -/+ pi,
-\* -beta, ends exchanged, "swapped") when the azimuthal angle incl. tilt leaves [0, pi)
-LorOk(r, i, b) ==
-  LET small == Small(r.lpr[i]) /\ Small(r.lbr[i]) /\ Small(r.z1r[i]) /\ Small(r.z2r[i]) IN
-  /\ small
-  /\ \/ /\ r.lp[i] = PhiU(c, b) /\ r.lb[i] = BetaU(c, b) /\ r.z1[i] = Z1Q(c, b) /\ r.z2[i] = Z2Q(c, b) /\ r.sw[i] = 0
-     \/ /\ r.lp[i] \in {PhiU(c, b) - c.N, PhiU(c, b) + c.N} /\ r.lb[i] = -BetaU(c, b)
-        /\ r.z1[i] = Z2Q(c, b) /\ r.z2[i] = Z1Q(c, b) /\ r.sw[i] = 1
-        /\ c.tilt6 # 0
+\* -beta, ends exchanged, "swapped") when the azimuthal angle incl. tilt leaves [0, pi).
+\* k = << PhiU, Z1Q, Z2Q, 2*Delta2 >> of the row; tb = the bin's tangential coordinate in its unit
+LorOk(r, i, k, tb) ==
+  \/ r.lp[i] = k[1] /\ r.lb[i] = tb /\ r.z1[i] = k[2] /\ r.z2[i] = k[3] /\ r.sw[i] = 0
+  \/ /\ c.tilt6 # 0 /\ r.sw[i] = 1
+     /\ r.lp[i] \in {k[1] - c.N, k[1] + c.N} /\ r.lb[i] = -tb /\ r.z1[i] = k[3] /\ r.z2[i] = k[2]
 TofOk(r) ==
   IF c.tofMash = 0 THEN ~Has(r, "k")
   ELSE LET b == RowBin(r, 1) IN
        /\ Is(r.k, KH(c, b))                                   \* k = tof * (TOF bin width)
        /\ Is(r.sk, 2)                                         \* sampling in k = one TOF bin width
        /\ Is(r.dt, 2 * b.tof * c.tofMash)                     \* time difference of the bin centre
-RowCyl(r) ==
-  LET b1 == RowBin(r, 1) n == c.maxTang - c.minTang + 1 IN
+RowCommon(r, n) ==
+  LET b1 == RowBin(r, 1) IN
   /\ Is(r.phi, PhiU(c, b1)) /\ Is(r.m, MQ(c, b1))
   /\ Is(r.sm, 4 \div Inc(c, r.seg))                           \* axial sampling: ring spacing or half of it
   /\ TofOk(r)
-  /\ Len(r.s) = n /\ Len(r.sr) = n /\ Len(r.th) = n /\ Len(r.lp) = n /\ Len(r.lb) = n /\ Len(r.z1) = n /\ Len(r.z2) = n /\ Len(r.sw) = n
-  /\ \A i \in 1..n :
-       LET b == RowBin(r, i) IN
-       /\ IsAt(r, "s", "sr", i, BetaU(c, b))                  \* asin(s/R) = tang * pi/N
-       /\ WellCond(b) => /\ LorOk(r, i, b)
-                         /\ IsAt(r, "th", "thr", i, 2 * Delta2(c, r.seg))      \* tan(theta) * chord = z2 - z1
-RowArc(r) ==
-  LET b1 == RowBin(r, 1) n == c.maxTang - c.minTang + 1 IN
-  /\ Is(r.phi, PhiU(c, b1)) /\ Is(r.m, MQ(c, b1)) /\ Is(r.sm, 4 \div Inc(c, r.seg)) /\ TofOk(r)
-  /\ Len(r.s) = n /\ Len(r.ss) = n /\ Len(r.th) = n /\ Len(r.lp) = n /\ Len(r.lb) = n /\ Len(r.z1) = n /\ Len(r.z2) = n /\ Len(r.sw) = n
-  /\ \A i \in 1..n :
-       LET b == RowBin(r, i) IN
-       /\ IsAt(r, "s", "sr", i, b.tang)                       \* s = tang * bin size
-       /\ IsAt(r, "ss", "ssr", i, 1)                          \* "arc-corrected data have uniform tangential sampling"
-       /\ (InRing(b) /\ WellCond(b)) =>
+  /\ Len(r.s) = n /\ Len(r.sr) = n /\ Len(r.th) = n /\ Len(r.thr) = n /\ Len(r.lp) = n /\ Len(r.lpr) = n /\ Len(r.lb) = n /\ Len(r.lbr) = n
+  /\ Len(r.z1) = n /\ Len(r.z1r) = n /\ Len(r.z2) = n /\ Len(r.z2r) = n /\ Len(r.sw) = n
+RowConsts(r) == LET b1 == RowBin(r, 1) IN { << PhiU(c, b1), Z1Q(c, b1), Z2Q(c, b1), 2 * Delta2(c, r.seg) >> }
+RowCyl(r) ==
+  LET n == c.maxTang - c.minTang + 1 IN
+  /\ RowCommon(r, n)
+  /\ AllSmall(r.sr)
+  /\ \A k \in RowConsts(r) :
+     \A i \in 1..n :
+       LET t == c.minTang + i - 1 IN
+       /\ r.s[i] = t                                          \* asin(s/R) = tang * pi/N
+       /\ (5 * Abs(t) <= 2 * c.N) =>                          \* WellCond
+            /\ LorOk(r, i, k, t)
             /\ Small(r.lpr[i]) /\ Small(r.lbr[i]) /\ Small(r.z1r[i]) /\ Small(r.z2r[i])
-            /\ \/ r.lp[i] = PhiU(c, b) /\ r.lb[i] = b.tang /\ r.z1[i] = Z1Q(c, b) /\ r.z2[i] = Z2Q(c, b) /\ r.sw[i] = 0
-               \/ /\ r.lp[i] \in {PhiU(c, b) - c.N, PhiU(c, b) + c.N} /\ r.lb[i] = -b.tang
-                  /\ r.z1[i] = Z2Q(c, b) /\ r.z2[i] = Z1Q(c, b) /\ r.sw[i] = 1 /\ c.tilt6 # 0
-            /\ IsAt(r, "th", "thr", i, 2 * Delta2(c, r.seg))
+            /\ r.th[i] = k[4] /\ Small(r.thr[i])              \* tan(theta) * chord = z2 - z1
+RowArc(r) ==
+  LET n == c.maxTang - c.minTang + 1 IN
+  /\ RowCommon(r, n) /\ Len(r.ss) = n /\ Len(r.ssr) = n
+  /\ AllSmall(r.sr) /\ AllSmall(r.ssr)
+  /\ \A k \in RowConsts(r) :
+     \A i \in 1..n :
+       LET t == c.minTang + i - 1 IN
+       /\ r.s[i] = t                                          \* s = tang * bin size
+       /\ r.ss[i] = 1                                         \* "arc-corrected data have uniform tangential sampling"
+       /\ (Abs(t) * c.bin3 < c.radius3 /\ 20 * Abs(t) * (c.bin3 \div 10) <= 19 * (c.radius3 \div 10)) =>   \* InRing, WellCond
+            /\ LorOk(r, i, k, t)
+            /\ Small(r.lpr[i]) /\ Small(r.lbr[i]) /\ Small(r.z1r[i]) /\ Small(r.z2r[i])
+            /\ r.th[i] = k[4] /\ Small(r.thr[i])
 \* Blocks / Generic: the coordinates are those of the line through the two crystals, reported in the
 \* standard representation (0 <= phi < pi), so s changes sign where phi wraps.  Decided here (discrete
 \* clauses only): on the representation next to the nominal view angle, s is strictly increasing in the
@@ -109,9 +117,11 @@ RowDiscrete(r) ==
       sc(i) == IF flip(i) THEN -r.fs[i] ELSE r.fs[i]
       thc(i) == IF flip(i) THEN -r.fth[i] ELSE r.fth[i]
   IN /\ Len(r.fs) = n /\ Len(r.fphi) = n /\ Len(r.fm) = n /\ Len(r.fth) = n /\ Len(r.fthm) = n /\ Len(r.fmm) = n
-     /\ \A i \in 1..(n - 1) : sc(i) < sc(i + 1)
+     \* (crystals of one flat block are collinear: equal s; the Generic map here is a circle: strict)
+     /\ \A i \in 1..(n - 1) : IF c.geom = "Generic" THEN sc(i) < sc(i + 1) ELSE sc(i) <= sc(i + 1)
      /\ \A i \in 1..n : LET j == 2 - 2 * c.minTang - i IN (j >= 1 /\ j <= n) => Abs(sc(i) + sc(j)) <= SymTol
-     /\ \A i \in 1..n : Abs(r.fm[i] + r.fmm[i]) <= SymTol
+     \* (Blocks: m is the midpoint on the line's cylinder, not mirrored when the crystal radii differ)
+     /\ (c.geom = "Generic") => \A i \in 1..n : Abs(r.fm[i] + r.fmm[i]) <= SymTol
      \* tan(theta) in 1e-6: opposite segments (same view/tang: the same two crystals, rings exchanged)
      /\ \A i \in 1..n : Abs(r.fth[i] + r.fthm[i]) <= 20
      /\ \A i \in 1..n : (r.seg > 0 => thc(i) > 0) /\ (r.seg < 0 => thc(i) < 0) /\ (r.seg = 0 => Abs(thc(i)) <= 20)
@@ -127,7 +137,7 @@ RtArcOk(r, i) ==
 \* which happens only for axially compressed bins at the axial edge"
 RtDetOk(r, i) ==
   LET b == RowBin(r, i) IN
-  IF r.ok[i] = 1 THEN Near(c, b, RtBin(r, i))
+  IF r.ok[i] = 1 THEN RtBin(r, i) = b \/ Near(c, b, RtBin(r, i))      \* (b is a bin: RowOk, tang in range)
   ELSE r.ok[i] = 0 /\ MayMiss(c, b)
 RtOk(r, i) == IF c.arc THEN RtArcOk(r, i) ELSE RtDetOk(r, i)
 RtShape(r) == LET n == c.maxTang - c.minTang + 1 IN
@@ -138,20 +148,27 @@ RtAll(r) == RtShape(r) /\ \A i \in 1..(c.maxTang - c.minTang + 1) : RtOk(r, i)
 (* ------------------------- detector-pair lines -------------------------- *)
 \* the line through the positions of two detectors, as STIR's classes describe it, is the line of the
 \* specification (heights above the first ring), and it agrees with the bin the pair is assigned to
+\* (the recorded line is compared where it is well conditioned: |beta| <= 0.4 pi)
+PlLineOk(r, p) ==
+  /\ Small(r.lp[2]) /\ Small(r.lb[2]) /\ Small(r.z1[2]) /\ Small(r.z2[2])
+  /\ LET rec == Line(r.lp[1], r.lb[1], r.z1[1], r.z2[1]) IN
+     \* (angles are logged without the intrinsic tilt; STIR standardises the tilted angle)
+     /\ (c.tilt6 = 0) => rec.phi >= 0 /\ rec.phi < c.N
+     /\ 2 * rec.beta < c.N /\ 2 * rec.beta > -c.N
+     /\ SameLine(c.N, rec, PairLine(c, p, ZFirstRing))
+PlBinOk(r, p, b) ==
+  \E same \in BOOLEAN :
+     /\ IsInPlaneOf(c, r.d1, r.d2, r.view, r.tang, same)
+     /\ LET x == BinGiven(c, p, r.view, r.tang, same) IN
+        IF x = NoBin THEN ~r.ok
+        ELSE /\ r.ok /\ x = b
+             /\ AgreesWithPair(c, b, Oriented(p, same))
 PlOk(r) ==
   LET p == << r.d1, r.r1, r.d2, r.r2, r.t >>
       b == Bin(r.seg, r.ax, r.view, r.tang, r.tof) IN
   /\ r.okl
-  /\ Small(r.lp[2]) /\ Small(r.lb[2]) /\ Small(r.z1[2]) /\ Small(r.z2[2])
-  /\ LET rec == Line(r.lp[1], r.lb[1], r.z1[1], r.z2[1]) IN
-     /\ rec.phi >= 0 /\ rec.phi < c.N /\ 2 * rec.beta < c.N /\ 2 * rec.beta > -c.N
-     /\ rec = StdLine(c.N, PairLine(c, p, ZFirstRing))
-  /\ \E same \in BOOLEAN :
-        /\ IsInPlaneOf(c, r.d1, r.d2, r.view, r.tang, same)
-        /\ LET x == BinGiven(c, p, r.view, r.tang, same) IN
-           IF x = NoBin THEN ~r.ok
-           ELSE /\ r.ok /\ x = b
-                /\ AgreesWithPair(c, b, Oriented(p, same))
+  /\ (5 * Abs(r.lb[1]) <= 2 * c.N) => PlLineOk(r, p)
+  /\ PlBinOk(r, p, b)
 
 (* ------------------------------- TOF ------------------------------------ *)
 \* "TOF bin k collects the time differences within half a bin width of its centre": sample points are odd
@@ -165,44 +182,45 @@ TbOk(r) == /\ c.tofMash > 0 /\ Len(r.j) = Len(r.bin) /\ Len(r.j) > 0
 (* --------------------------- arc correction ----------------------------- *)
 \* ArcConfig: input bins t0..t1 with edges es (2^-12 mm) half-way in ANGLE between neighbouring lines
 \* (eb = edge angle in units pi/(2N) must be 2*tang-1), output bins o0..o1 of width dout12 (2^-12 mm)
-ArcCfgOf(r) == [kind |-> "arc", N |-> r.N, t0 |-> r.t0, t1 |-> r.t1, o0 |-> r.o0, o1 |-> r.o1, dout |-> r.dout12, es |-> r.es]
+ArcCfgOf(r) == [kind |-> "arc", N |-> r.N, t0 |-> r.t0, t1 |-> r.t1, o0 |-> r.o0, o1 |-> r.o1, dout |-> r.dout12, dout16 |-> r.dout16, es |-> r.es]
 ArcConfigOk(r) ==
   LET n == r.t1 - r.t0 + 1 IN
   /\ Len(r.eb) = n + 1 /\ Len(r.ebr) = n + 1 /\ Len(r.es) = n + 1
   /\ \A i \in 1..(n + 1) : r.eb[i] = 2 * (r.t0 + i - 1) - 1 /\ Small(r.ebr[i])
   /\ \A i \in 1..n : r.es[i] < r.es[i + 1]
-  /\ r.dout12 > 0
+  /\ r.dout12 > 0 /\ r.dout16 \div 16 \in {r.dout12 - 1, r.dout12}
   /\ r.sampling_s12 = r.dout12            \* "maps ... to uniform data": the output template has uniform sampling
 \* floor(a*b/2^10) without leaving 32 bits (0 <= a < 2^31, 0 <= b <= 2^16)
 MulShift10(a, b) == (a \div 1024) * b + ((a % 1024) * b) \div 1024
-SumSeq(s) == LET RECURSIVE acc(_)
-                 acc(i) == IF i = 0 THEN 0 ELSE s[i] + acc(i - 1)
-             IN acc(Len(s))
-\* "preserves the integral over the tangential coordinate" (where the output range covers the input) and
-\* "maps uniform data to uniform data".  Values: in = small integers, out = 2^-10.
+SumSeq(s) == FoldLeft(LAMBDA a, b : a + b, 0, s)
+\* "arc correction maps uniform data to uniform data and preserves the integral over the tangential
+\* coordinate".  Input bin i has the extent [es[i], es[i+1]], output bin j the extent (o0+j-1 -/+ 1/2)*dout;
+\* the data are densities (step functions), so the integral of the output over its range must be the
+\* integral of the input over the same range.  Values: inp = small integers, out = 2^-10, lengths 2^-12 mm.
+\* ext = 0: the documented output bins.  ext = 1 describes known finding C12-arclastbin (the last output
+\* bin reaches one sampling distance too far) and is only used by Classify.
 ArcTolRel == 4096                                          \* relative tolerance 2^-12
-ArcOk(r) ==
+ArcOkExt(r, ext) ==
   LET n == c.t1 - c.t0 + 1   m == c.o1 - c.o0 + 1
-      inInt == SumSeq([i \in 1..n |-> r.inp[i] * (c.es[i + 1] - c.es[i])])          \* 2^-12 mm
-      outSum == SumSeq(r.out)                                                          \* 2^-10
-      outInt == MulShift10(outSum, c.dout)                                           \* 2^-12 mm
-      \* edges of output bin j (1-based): (o0 + j - 1 -/+ 1/2) * dout
-      lo(j) == ((2 * (c.o0 + j - 1) - 1) * c.dout) \div 2
-      hi(j) == ((2 * (c.o0 + j - 1) + 1) * c.dout) \div 2
-      covers == lo(1) <= c.es[1] /\ hi(m) >= c.es[n + 1]
-      maxIn == 15
-      tol == (inInt \div ArcTolRel) + (m * c.dout) \div 1024 + 16 * n + 16
+      lo(j) == ((2 * (c.o0 + j - 1) - 1) * c.dout16) \div 32                      \* (2^-16 mm widths: no drift over the row)
+      hi(j) == ((2 * (c.o0 + j - 1) + 1) * c.dout16) \div 32 + (IF j = m THEN ext * c.dout ELSE 0)
+      L == lo(1)  H == hi(m)
+      ov(i) == Max2(0, Min2(c.es[i + 1], H) - Max2(c.es[i], L))                       \* overlap of input bin i with the output range
+      inInt == SumSeq([i \in 1..n |-> r.inp[i] * ov(i)])                              \* 2^-12 mm
+      outInt == MulShift10(SumSeq(r.out), c.dout)                                     \* 2^-12 mm
+      tol == (inInt \div ArcTolRel) + (inInt \div c.dout) + (m * c.dout) \div 1024 + 16 * n + 16
   IN /\ Len(r.inp) = n /\ Len(r.out) = m
-     /\ \A i \in 1..n : r.inp[i] >= 0 /\ r.inp[i] <= maxIn
-     /\ covers => Abs(inInt - outInt) <= tol
-     /\ ~covers => outInt <= inInt + tol
+     /\ \A i \in 1..n : r.inp[i] >= 0 /\ r.inp[i] <= 15
+     /\ Abs(inInt - outInt) <= tol
      \* uniform input v: every output bin inside the input extent is v, outside it is 0, never above v
      /\ (r.kind \in {0, 1}) =>
           LET v == r.inp[1] * 1024 IN
           \A j \in 1..m :
-             /\ r.out[j] >= -2 /\ r.out[j] <= v + 2 + v \div 4096
-             /\ (lo(j) >= c.es[1] + 8 /\ hi(j) <= c.es[n + 1] - 8) => Abs(r.out[j] - v) <= 2 + v \div 4096
-             /\ (hi(j) <= c.es[1] - 8 \/ lo(j) >= c.es[n + 1] + 8) => r.out[j] = 0
+             LET w == IF j = m THEN 1 + ext ELSE 1 IN                                  \* width of the bin in samplings
+             /\ r.out[j] >= -2 /\ r.out[j] <= w * v + 2 + v \div 4096
+             /\ (lo(j) >= c.es[1] + 32 /\ hi(j) <= c.es[n + 1] - 32) => Abs(r.out[j] - w * v) <= 2 + v \div 4096
+             /\ (hi(j) <= c.es[1] - 32 \/ lo(j) >= c.es[n + 1] + 32) => r.out[j] = 0
+ArcOk(r) == ArcOkExt(r, 0)
 
 (* ------------------------------ dispatch -------------------------------- *)
 Explains(r) ==
@@ -230,7 +248,8 @@ SigArcView(r, i) == /\ c.arc /\ r.kind = 1 /\ r.view = 0 /\ (c.mash > 1 \/ c.til
 \* reported line lie on ITS cylinder (the larger of the two crystal radii), not on the crystals
 SigMapLookup(r, i) == Discrete(c) /\ r.kind = 1 /\ r.dr[i] >= 1
 Classify(r) ==
-  IF c.kind # "pdi" \/ r.e # "RT" THEN "new"
+  IF c.kind = "arc" /\ r.e = "Arc" THEN (IF ArcOkExt(r, 1) THEN "C12-arclastbin" ELSE "new")
+  ELSE IF c.kind # "pdi" \/ r.e # "RT" THEN "new"
   ELSE IF FailsOnly(r, LAMBDA i : SigTangEdge(r, i)) THEN "C12-tangedge"
   ELSE IF FailsOnly(r, LAMBDA i : SigArcView(r, i)) THEN "C12-arcview"
   ELSE IF FailsOnly(r, LAMBDA i : SigMapLookup(r, i)) THEN "C12-maplookup"
